@@ -9,6 +9,10 @@ Reading guide
   * `StoreWF`       the invariant of the real store (one config entry per destination, distinct
                     (peer, name) sources with computed precedence; legacy rows unique per id and per
                     (source, destination)) — `reachable_store_wf` shows every history of writes keeps it
+  * `Lower n`       the name is lower case. memdb lower-cases the config-entry key and the legacy index
+                    keys while decisions compare exact bytes, so the theorems ask for lower-case entry /
+                    destination / legacy-row names and lower-case query names; what happens otherwise is
+                    kept visible in the `case_…_counterexample` theorems
   * `flatten st`    the set of intentions a store holds, whatever the representation
   * `mostSpecific`  "most specific wins" written without sorting
   * `checkDecision` `Intention.Check` / topology: source match, then destination decision
@@ -54,10 +58,38 @@ theorem sort_perm_invariant {xs ys : List Ixn} (h : KeysNodup xs) (hp : xs.Perm 
 /-- Every history of writes (config entries applied or deleted, upsert / delete / legacy-create
     mutations, legacy rows set or deleted; accepted or rejected, in any mix) leaves the store
     well formed. `Op.local`: legacy table rows have no peer and name both ends (what `Intention.Validate`
-    enforces; memdb's unique (source, destination) index does not cover rows with an empty name). -/
+    enforces; memdb's unique (source, destination) index does not cover rows with an empty name), and the
+    destination names of written entries / all names of legacy rows are lower case. -/
 theorem reachable_store_wf (cfgMode : Bool) (ops : List Op) (ho : ∀ o ∈ ops, o.local) :
     StoreWF (run { cfgMode := cfgMode } ops) :=
   storeWF_run (storeWF_empty cfgMode) ops ho
+
+/-- Faithful-model observation (kept visible): the legacy table's unique (source, destination) index
+    does not cover rows with an empty name, so `LegacyIntentionSet` accepts two of them — which is why
+    `Op.local` asks for named rows (the legacy RPC validated `DestinationName must be set`). -/
+theorem legacy_unnamed_rows_duplicate_counterexample :
+    let w : Name := [119]
+    (runE { cfgMode := false } [.lset [1] ⟨[], w, [], .allow, 0, 0⟩, .lset [2] ⟨[], w, [], .deny, 0, 0⟩]).map
+      (fun st => (flatten st).map (·.key)) = some [([], w, []), ([], w, [])] := by
+  decide
+
+/-- Faithful-model observation (kept visible): names that differ only in letter case. The config entry
+    `Web` is found under the key `web`, so the authorize pipeline (destination match, then source check)
+    applies its `api → Web` deny to the target `web`, while the check pipeline (source match, then exact
+    destination comparison) does not: the two pipelines disagree. Hence the `Lower` hypotheses. -/
+theorem case_variant_destination_pipelines_disagree_counterexample :
+    let web : Name := [119]; let Web : Name := [87]; let api : Name := [97]
+    let st := (applyOpE { cfgMode := true } (.ent ⟨Web, [⟨[], api, .deny, 0, 0, []⟩]⟩)).1
+    authzDecision st [] api web true false = ⟨false, false, true⟩ ∧
+    checkDecision st api web true false = ⟨true, false, false⟩ := by
+  decide
+
+/-- … and an entry `web` silently replaces the entry `Web` (one primary key). -/
+theorem case_variant_entry_overwrites_counterexample :
+    let web : Name := [119]; let Web : Name := [87]; let api : Name := [97]
+    (runE { cfgMode := true } [.ent ⟨Web, [⟨[], api, .deny, 0, 0, []⟩]⟩, .ent ⟨web, [⟨[], api, .allow, 0, 0, []⟩]⟩]).map
+      (fun st => (flatten st).map (·.dst)) = some [web] := by
+  decide
 
 /-! ## decisions -/
 
@@ -66,20 +98,20 @@ theorem reachable_store_wf (cfgMode : Bool) (ops : List Op) (ho : ∀ o ∈ ops,
     before wildcard destination, then exact source before wildcard source — and by the default policy
     when none covers it. L7 permissions turn the answer into `allowPerms`. -/
 theorem decision_most_specific {st : Store} (h : StoreWF st) (peer s d : Name) (hs : s ≠ star) (hd : d ≠ star)
-    (defaultAllow allowPerms : Bool) :
+    (hls : Lower s) (hld : Lower d) (defaultAllow allowPerms : Bool) :
     checkDecision st s d defaultAllow allowPerms
       = verdict (mostSpecific (flatten st) [] s d) defaultAllow allowPerms ∧
     authzDecision st peer s d defaultAllow allowPerms
       = verdict (mostSpecific (flatten st) peer s d) defaultAllow allowPerms :=
-  ⟨check_most_specific h s d hs hd _ _, authz_most_specific h peer s d hs hd _ _⟩
+  ⟨check_most_specific h s d hs hd hls _ _, authz_most_specific h peer s d hs hd hld _ _⟩
 
 /-- The same for every history of writes, starting from an empty store in either mode. -/
 theorem decision_most_specific_reachable (cfgMode : Bool) (ops : List Op) (ho : ∀ o ∈ ops, o.local)
-    (peer s d : Name) (hs : s ≠ star) (hd : d ≠ star) (da ap : Bool) :
+    (peer s d : Name) (hs : s ≠ star) (hd : d ≠ star) (hls : Lower s) (hld : Lower d) (da ap : Bool) :
     let st := run { cfgMode := cfgMode } ops
     checkDecision st s d da ap = verdict (mostSpecific (flatten st) [] s d) da ap ∧
     authzDecision st peer s d da ap = verdict (mostSpecific (flatten st) peer s d) da ap :=
-  decision_most_specific (reachable_store_wf cfgMode ops ho) peer s d hs hd da ap
+  decision_most_specific (reachable_store_wf cfgMode ops ho) peer s d hs hd hls hld da ap
 
 /-- `mostSpecific` means what it says: its result is stored, covers the pair, and no stored covering
     intention has a higher specificity rank (2·[destination exact] + [source exact]). -/
@@ -102,22 +134,23 @@ theorem most_specific_unique {F : List Ixn} (hk : KeysNodup F) {peer s d : Name}
 /-- The default policy decides when no stored intention covers the pair (and only then: otherwise
     `mostSpecific` is `some _` by `mostSpecific_eq_none_iff`). -/
 theorem default_policy_when_none_covers {st : Store} (h : StoreWF st) (peer s d : Name) (hs : s ≠ star) (hd : d ≠ star)
-    (hnone : ∀ i ∈ flatten st, covers peer s d i = false) (da ap : Bool) :
+    (hls : Lower s) (hld : Lower d) (hnone : ∀ i ∈ flatten st, covers peer s d i = false) (da ap : Bool) :
     authzDecision st peer s d da ap = ⟨da, false, false⟩ ∧
     (peer = [] → checkDecision st s d da ap = ⟨da, false, false⟩) := by
   constructor
-  · rw [(decision_most_specific h peer s d hs hd da ap).2, (mostSpecific_eq_none_iff _ _ _ _).mpr hnone]
+  · rw [(decision_most_specific h peer s d hs hd hls hld da ap).2, (mostSpecific_eq_none_iff _ _ _ _).mpr hnone]
     rfl
   · intro hp
     subst hp
-    rw [(decision_most_specific h [] s d hs hd da ap).1, (mostSpecific_eq_none_iff _ _ _ _).mpr hnone]
+    rw [(decision_most_specific h [] s d hs hd hls hld da ap).1, (mostSpecific_eq_none_iff _ _ _ _).mpr hnone]
     rfl
 
 /-- For local callers the two pipelines (source match + destination decision, destination match +
     source decision) agree. -/
-theorem check_and_authz_agree {st : Store} (h : StoreWF st) (s d : Name) (hs : s ≠ star) (hd : d ≠ star) (da ap : Bool) :
+theorem check_and_authz_agree {st : Store} (h : StoreWF st) (s d : Name) (hs : s ≠ star) (hd : d ≠ star)
+    (hls : Lower s) (hld : Lower d) (da ap : Bool) :
     checkDecision st s d da ap = authzDecision st [] s d da ap := by
-  rw [(decision_most_specific h [] s d hs hd da ap).1, (decision_most_specific h [] s d hs hd da ap).2]
+  rw [(decision_most_specific h [] s d hs hd hls hld da ap).1, (decision_most_specific h [] s d hs hd hls hld da ap).2]
 
 /-- `IntentionDecision` is "head of the matching part of the match list". -/
 theorem check_agrees_with_match (st : Store) (s d : Name) (da ap : Bool) :
@@ -129,15 +162,15 @@ theorem check_agrees_with_match (st : Store) (s d : Name) (da ap : Bool) :
 
 /-- What `IntentionMatch` returns: exactly the stored intentions covering the name on the queried
     side (see `inMatch` for the peer-twin clause of source matches). -/
-theorem match_sound_and_complete {st : Store} (h : StoreWF st) (side : Side) (n : Name) (i : Ixn) :
+theorem match_sound_and_complete {st : Store} (h : StoreWF st) (side : Side) (n : Name) (hn : Lower n) (i : Ixn) :
     i ∈ matchList st side n ↔ inMatch (flatten st) side n i :=
-  mem_matchList h side n i
+  mem_matchList h side n hn i
 
 /-- Match results come in precedence order: nothing later is `Less` than something earlier, hence the
     precedence numbers and the specificity rank never increase along the list; no intention appears twice. -/
-theorem match_sorted {st : Store} (h : StoreWF st) (side : Side) (n : Name) :
+theorem match_sorted {st : Store} (h : StoreWF st) (side : Side) (n : Name) (hn : Lower n) :
     (matchList st side n).Pairwise (fun a b => less b a = false ∧ b.prec ≤ a.prec ∧ spec b ≤ spec a ∧ a.key ≠ b.key) := by
-  obtain ⟨R, hR, hRk, hm⟩ := matchList_eq_sort h side n
+  obtain ⟨R, hR, hRk, hm⟩ := matchList_eq_sort h side n hn
   have hs : Sorted less (sortIxns R) := isort_sorted less_strictWeak R
   have hwf : PrecWF R := (flatten_precWF h).subset (fun i hi => ((hm i).mp hi).1)
   have hnd : KeysNodup (sortIxns R) := hRk.perm (isort_perm R).symm (fun h => fun e => h e.symm)
@@ -182,10 +215,10 @@ theorem source_match_returns_peer_twin_counterexample :
     rows (`legacy_and_config_entry_agree` is the instance `a.cfgMode ≠ b.cfgMode`). -/
 theorem decision_write_order_independent {a b : Store} (ha : StoreWF a) (hb : StoreWF b) (h : SameSet a b) :
     SameAnswers a b := by
-  have hm := fun side n => matchList_sameSet ha hb h side n
+  have hm := fun side n hn => matchList_sameSet ha hb h side n hn
   refine ⟨listAll_sameSet ha hb h, hm, ?_, ?_⟩
-  · intro s d da ap; simp only [checkDecision, hm]
-  · intro peer s d da ap; simp only [authzDecision, hm]
+  · intro s d da ap hl; simp only [checkDecision, hm _ _ hl]
+  · intro peer s d da ap hl; simp only [authzDecision, hm _ _ hl]
 
 /-- … in particular for any two histories of writes that end with the same set. -/
 theorem histories_with_same_set_agree (m m' : Bool) (ops ops' : List Op)
@@ -200,7 +233,7 @@ theorem localOnly_empty (m : Bool) : LocalOnly { cfgMode := m } := by
 /-- Creating a set of local intentions with pairwise distinct (destination, source) through upsert
     mutations, in any two orders (both accepted): same stored set, hence the same answers. -/
 theorem upserts_in_any_order_agree (ws ws' : List (Name × Src)) (hp : ws.Perm ws')
-    (hloc : ∀ w ∈ ws, w.2.peer = [])
+    (hloc : ∀ w ∈ ws, w.2.peer = []) (hlow : ∀ w ∈ ws, Lower w.1)
     (hd : ws.Pairwise fun a b => ¬ (a.1 = b.1 ∧ a.2.name = b.2.name))
     {a b : Store} (ha : runE { cfgMode := true } (upOps ws) = some a)
     (hb : runE { cfgMode := true } (upOps ws') = some b) :
@@ -208,12 +241,15 @@ theorem upserts_in_any_order_agree (ws ws' : List (Name × Src)) (hp : ws.Perm w
   have e0 : ∀ i, i ∉ flatten ({ cfgMode := true } : Store) := by intro i; simp [flatten]
   have hd' : ws'.Pairwise fun a b => ¬ (a.1 = b.1 ∧ a.2.name = b.2.name) :=
     hd.perm hp (fun h => fun e => h ⟨e.1.symm, e.2.symm⟩)
-  have ma := mem_flatten_runE_ups (storeWF_empty true) rfl (localOnly_empty true) ws hloc hd
+  have hlow' : ∀ w ∈ ws', Lower w.1 := fun w hw => hlow w (hp.mem_iff.mpr hw)
+  have ma := mem_flatten_runE_ups (storeWF_empty true) rfl (localOnly_empty true) ws hloc hlow hd
     (fun _ _ i hi => absurd hi (e0 i)) ha
   have mb := mem_flatten_runE_ups (storeWF_empty true) rfl (localOnly_empty true) ws'
-    (fun w hw => hloc w (hp.mem_iff.mpr hw)) hd' (fun _ _ i hi => absurd hi (e0 i)) hb
-  have wa := storeWF_runE (storeWF_empty true) (upOps ws) (by simp only [upOps, List.mem_map]; rintro o ⟨w, _, rfl⟩; trivial) ha
-  have wb := storeWF_runE (storeWF_empty true) (upOps ws') (by simp only [upOps, List.mem_map]; rintro o ⟨w, _, rfl⟩; trivial) hb
+    (fun w hw => hloc w (hp.mem_iff.mpr hw)) hlow' hd' (fun _ _ i hi => absurd hi (e0 i)) hb
+  have wa := storeWF_runE (storeWF_empty true) (upOps ws)
+    (by simp only [upOps, List.mem_map]; rintro o ⟨w, hw, rfl⟩; exact hlow w hw) ha
+  have wb := storeWF_runE (storeWF_empty true) (upOps ws')
+    (by simp only [upOps, List.mem_map]; rintro o ⟨w, hw, rfl⟩; exact hlow' w hw) hb
   refine ⟨fun i => by simpa [e0 i] using ma i, decision_write_order_independent wa wb ?_⟩
   intro i
   rw [ma, mb]
@@ -227,15 +263,18 @@ theorem upserts_in_any_order_agree (ws ws' : List (Name × Src)) (hp : ws.Perm w
     permuted, sources permuted) therefore give the same answers. -/
 theorem entries_in_any_order_agree (es es' : List Entry)
     (hd : es.Pairwise fun a b => a.name ≠ b.name) (hd' : es'.Pairwise fun a b => a.name ≠ b.name)
+    (hlow : ∀ e ∈ es, Lower e.name) (hlow' : ∀ e ∈ es', Lower e.name)
     (hsame : ∀ i, (∃ e ∈ es, ∃ s ∈ e.sources, i = ixnOf e.name s) ↔ (∃ e ∈ es', ∃ s ∈ e.sources, i = ixnOf e.name s))
     {a b : Store} (ha : runE { cfgMode := true } (entOps es) = some a)
     (hb : runE { cfgMode := true } (entOps es') = some b) :
     (∀ i, i ∈ flatten a ↔ ∃ e ∈ es, ∃ s ∈ e.sources, i = ixnOf e.name s) ∧ SameAnswers a b := by
   have e0 : ∀ i, i ∉ flatten ({ cfgMode := true } : Store) := by intro i; simp [flatten]
-  have ma := mem_flatten_runE_ents (st0 := { cfgMode := true }) rfl es hd (fun _ _ i hi => absurd hi (e0 i)) ha
-  have mb := mem_flatten_runE_ents (st0 := { cfgMode := true }) rfl es' hd' (fun _ _ i hi => absurd hi (e0 i)) hb
-  have wa := storeWF_runE (storeWF_empty true) (entOps es) (by simp only [entOps, List.mem_map]; rintro o ⟨w, _, rfl⟩; trivial) ha
-  have wb := storeWF_runE (storeWF_empty true) (entOps es') (by simp only [entOps, List.mem_map]; rintro o ⟨w, _, rfl⟩; trivial) hb
+  have ma := mem_flatten_runE_ents (storeWF_empty true) rfl es hlow hd (fun _ _ i hi => absurd hi (e0 i)) ha
+  have mb := mem_flatten_runE_ents (storeWF_empty true) rfl es' hlow' hd' (fun _ _ i hi => absurd hi (e0 i)) hb
+  have wa := storeWF_runE (storeWF_empty true) (entOps es)
+    (by simp only [entOps, List.mem_map]; rintro o ⟨w, hw, rfl⟩; exact hlow w hw) ha
+  have wb := storeWF_runE (storeWF_empty true) (entOps es')
+    (by simp only [entOps, List.mem_map]; rintro o ⟨w, hw, rfl⟩; exact hlow' w hw) hb
   refine ⟨fun i => by simpa [e0 i] using ma i, decision_write_order_independent wa wb ?_⟩
   intro i
   rw [ma, mb]
@@ -244,7 +283,7 @@ theorem entries_in_any_order_agree (es es' : List Entry)
 
 /-- Legacy table rows with distinct ids, written in any order: same answers. -/
 theorem legacy_rows_in_any_order_agree (rs rs' : List (Name × Ixn)) (hp : rs.Perm rs')
-    (hd : rs.Pairwise fun a b => a.1 ≠ b.1) (hloc : ∀ x ∈ rs, x.2.peer = [] ∧ x.2.src ≠ [] ∧ x.2.dst ≠ [])
+    (hd : rs.Pairwise fun a b => a.1 ≠ b.1) (hloc : ∀ x ∈ rs, (x.2.peer = [] ∧ x.2.src ≠ [] ∧ x.2.dst ≠ []) ∧ Lower x.2.src ∧ Lower x.2.dst)
     {a b : Store} (ha : runE { cfgMode := false } (lsetOps rs) = some a)
     (hb : runE { cfgMode := false } (lsetOps rs') = some b) :
     (∀ i, i ∈ flatten a ↔ ∃ x ∈ rs, i = normRow x.2) ∧ SameAnswers a b := by
@@ -267,14 +306,16 @@ theorem legacy_rows_in_any_order_agree (rs rs' : List (Name × Ixn)) (hp : rs.Pe
 /-- Legacy and config-entry representations agree: the same set of local intentions written as legacy
     rows (any ids, any order) and through upsert mutations (any order) gives the same answers. -/
 theorem legacy_and_config_entry_agree (ws : List (Name × Src)) (rs : List (Name × Ixn))
-    (hloc : ∀ w ∈ ws, w.2.peer = []) (hd : ws.Pairwise fun a b => ¬ (a.1 = b.1 ∧ a.2.name = b.2.name))
-    (hrd : rs.Pairwise fun a b => a.1 ≠ b.1) (hrl : ∀ x ∈ rs, x.2.peer = [] ∧ x.2.src ≠ [] ∧ x.2.dst ≠ [])
+    (hloc : ∀ w ∈ ws, w.2.peer = []) (hlow : ∀ w ∈ ws, Lower w.1)
+    (hd : ws.Pairwise fun a b => ¬ (a.1 = b.1 ∧ a.2.name = b.2.name))
+    (hrd : rs.Pairwise fun a b => a.1 ≠ b.1) (hrl : ∀ x ∈ rs, (x.2.peer = [] ∧ x.2.src ≠ [] ∧ x.2.dst ≠ []) ∧ Lower x.2.src ∧ Lower x.2.dst)
     (hsame : ∀ i, (∃ w ∈ ws, i = ixnOf w.1 w.2) ↔ (∃ x ∈ rs, i = normRow x.2))
     {a b : Store} (ha : runE { cfgMode := true } (upOps ws) = some a)
     (hb : runE { cfgMode := false } (lsetOps rs) = some b) : SameAnswers a b := by
-  have ma := (upserts_in_any_order_agree ws ws (List.Perm.refl _) hloc hd ha ha).1
+  have ma := (upserts_in_any_order_agree ws ws (List.Perm.refl _) hloc hlow hd ha ha).1
   have mb := (legacy_rows_in_any_order_agree rs rs (List.Perm.refl _) hrd hrl hb hb).1
-  have wa := storeWF_runE (storeWF_empty true) (upOps ws) (by simp only [upOps, List.mem_map]; rintro o ⟨w, _, rfl⟩; trivial) ha
+  have wa := storeWF_runE (storeWF_empty true) (upOps ws)
+    (by simp only [upOps, List.mem_map]; rintro o ⟨w, hw, rfl⟩; exact hlow w hw) ha
   have wb := storeWF_runE (storeWF_empty false) (lsetOps rs)
     (by simp only [lsetOps, List.mem_map]; rintro o ⟨x, hx, rfl⟩; exact hrl x hx) hb
   apply decision_write_order_independent wa wb
